@@ -1067,7 +1067,16 @@ fn gen_noise(rng: &mut Rng, def: &str, plain: bool, domain: Domain) -> Event {
             }
         }
         1 => {
-            let (d, dom) = catalog::gen_definition(rng, plain);
+            let (mut d, dom) = catalog::gen_definition(rng, plain);
+            // a look-alike of the definition under test, differing only late in a long
+            // parameter value (an operator that memoises by a truncated key mixes them up)
+            if rng.chance(0.5) {
+                if def.contains("298.257222101") {
+                    d = def.replace("298.257222101", "298.257223563");
+                } else if def.contains("298.257223563") {
+                    d = def.replace("298.257223563", "298.257222101");
+                }
+            }
             let n = 1 + rng.below(3);
             Event::NoiseOp {
                 def: d,
